@@ -228,10 +228,22 @@ pub fn join_tokens(toks: &J, sep: &str) -> R<String> {
     let list = toks.as_array().ok_or("tokens must be an array")?;
     let mut out = String::new();
     for (i, t) in list.iter().enumerate() {
+        let mut tok = String::new();
+        push_token(&mut tok, t)?;
         if i > 0 {
-            out.push_str(sep);
+            if sep == "tight" {
+                // no white space except where two word-like tokens would merge
+                let wordy = |c: char| c.is_ascii_alphanumeric() || c == '_';
+                let a = out.chars().last().map(wordy).unwrap_or(false);
+                let b = tok.chars().next().map(wordy).unwrap_or(false);
+                if a && b {
+                    out.push(' ');
+                }
+            } else {
+                out.push_str(sep);
+            }
         }
-        push_token(&mut out, t)?;
+        out.push_str(&tok);
     }
     Ok(out)
 }
